@@ -142,6 +142,8 @@ def gen_cases(rng, tier, ctx):
     cases.append(_mk([1, 2], [1, 0], [192, 192], 384, [1, 1], [192, 192]))           # duplicates of a known segment
     cases.append(_mk([1, 2, 3], [1, 0, 1], [192, 384, 192], 768 + 208, [7, 7], [384, 192]))   # duplicate unknown
     cases.append(_mk([1, 2, 3, 4], [1, 0, 0, 1], [192, 208, 384, 192], 2000, [8], [300]))  # index mix-up: misses slot 2
+    # liveness remark (NOT part of C19, Props.C19_liveness_refuted): slot 2 fits, nothing can be appended -> spurious refusal
+    cases.append(_mk([1, 2, 3, 4, 5], [1, 0, 0, 0, 1], [192, 208, 384, 256, 192], 1400, [8], [300]))
     cases.append(_mk([1], [1], [192], 100, [7], [192], dtype='drv'))   # unsigned wrap-around of total - sum(capacities)
     # ---- small scope
     # (slots, new segments, number of layouts drawn from that scope; None = all of them)
@@ -514,26 +516,6 @@ def hist_capacity(case, obs):
     return None
 
 
-def hist_guard(case, obs):
-    """Python mirror of guard_C19_append_behind_freed_slots on the implementation's own states: False when some
-    upload placed segments while freed slots trailed the last referenced one"""
-    prev = {'refs': [1], 'progs': []}
-    for op, st in zip(case['ops'], obs['steps']):
-        if op[0] == 'upload':
-            refs = list(prev['refs'])
-            known = {p[0]: p[1] for p in prev['progs']}
-            if op[1] in known:
-                if not op[3]:
-                    prev = st
-                    continue
-                for q in set(known[op[1]]):
-                    refs[q] -= 1
-            if refs and refs[-1] <= 0:
-                return False
-        prev = st
-    return True
-
-
 def py_spec(case, obs):
     if 'crash' in obs or 'hang' in obs:
         return 'implementation crashed: %r' % (obs,)
@@ -601,6 +583,10 @@ def histogram_keys(case, obs):
             keys.append('has:amended-although-a-free-slot-could-fit')
     elif 'refused' in obs:
         keys.append('obs:refused:' + obs['refused'])
+        unknown = [l for h, l in zip(case['new_hashes'], case['new_lens']) if h not in case['hashes']]
+        if obs['refused'] == 'Fragmentation' and len(case['new_hashes']) == 1 and len(unknown) == 1 and any(
+                r == 0 and c >= unknown[0] for r, c in zip(case['refs'], case['caps'])):
+            keys.append('obs:refused-although-a-free-slot-fits(liveness remark, not C19)')
     else:
         keys.append('obs:crash')
     return keys
